@@ -52,8 +52,9 @@ type driver struct {
 	cmd  *exec.Cmd
 	in   io.WriteCloser
 	out  *bufio.Reader
-	path string
-	n    int
+	path    string
+	n       int
+	retried bool
 }
 
 func startDriver(path string) (*driver, error) {
@@ -110,8 +111,17 @@ func (d *driver) ask(req J) (J, error) {
 			return nil, fmt.Errorf("driver rejected request %s: %v", string(bs), b)
 		}
 		return out, nil
-	case <-time.After(20 * time.Second):
+	case <-time.After(60 * time.Second):
 		d.cmd.Process.Kill()
+		if !d.retried {
+			// a loaded machine can stall a request: restart the driver once and ask again before giving up
+			nd, err := startDriver(d.path)
+			if err == nil {
+				nd.retried = true
+				*d = *nd
+				return d.ask(req)
+			}
+		}
 		return nil, fmt.Errorf("driver timeout on request %s", string(bs))
 	}
 }
